@@ -105,7 +105,7 @@ fn restrict_val(v: &mut Val) {
 }
 
 fn rp17(kind: &str, schema: &OwnedDataModelType, bytes: &[u8], json: &Value) -> Vec<(String, String)> {
-    vec![kv("kind", kind), kv("schema", format!("{:?}", schema)), kv("static_bytes", hex(bytes)), kv("json", json.to_string())]
+    vec![kv("kind", kind), kv("shape", owned_to_shape(schema).text()), kv("schema", format!("{:?}", schema)), kv("static_bytes", hex(bytes)), kv("json", json.to_string())]
 }
 
 /// Classify a C17 disagreement by the feature involved (exact signatures for known-findings matching).
@@ -190,7 +190,7 @@ where
 {
     let schema: OwnedDataModelType = T::SCHEMA.into();
     let shape = T::shape();
-    let rounds = t.cfg.scale(2, 100, 3000);
+    let rounds = t.cfg.scale(2, 1000, 20_000);
     for _ in 0..rounds {
         if t.cfg.expired() {
             break;
@@ -223,7 +223,7 @@ where
 pub fn run_c17(cfg: &Cfg) -> Report {
     let mut rep = Report::new("C17");
     let s = parallel(cfg, 1, |t| {
-        let n = t.cfg.scale(30, 5_000, 200_000);
+        let n = t.cfg.scale(30, 60_000, 1_500_000);
         for i in 0..n {
             if t.cfg.expired() {
                 break;
@@ -434,7 +434,7 @@ fn has_option_of_nullable(s: &Shape) -> bool {
 }
 
 fn rp18(kind: &str, schema: &OwnedDataModelType, bytes: Option<&[u8]>, json: Option<&Value>) -> Vec<(String, String)> {
-    let mut v = vec![kv("kind", kind), kv("schema", format!("{:?}", schema))];
+    let mut v = vec![kv("kind", kind), kv("shape", owned_to_shape(schema).text()), kv("schema", format!("{:?}", schema))];
     if let Some(b) = bytes {
         v.push(kv("bytes", hex(b)));
     }
@@ -482,6 +482,16 @@ fn c18_decode(t: &mut Tctx, schema: &OwnedDataModelType, shape: &Shape, nodes: u
         }
         Ok(res) => {
             t.st.count(if res.is_ok() { "dyn_decode_ok" } else { "dyn_decode_err" });
+            if t.st.samples.len() < 3 && input.len() >= 2 && input.len() <= 20 && nodes > 2 && t.rng.chance(1, 64) {
+                let mut j = J::obj();
+                j.set("schema", J::s(format!("{}", schema))).set("bytes", J::s(hex(input))).set("class", J::s(class));
+                j.set("from_slice_dyn", J::s(match &res {
+                    Ok(v) => format!("Ok({})", v),
+                    Err(e) => format!("Err({:?})", e),
+                }));
+                j.set("bytes_allocated", J::i(al.bytes as u64));
+                t.st.sample(j);
+            }
             let bound = 512 * nodes * (input.len() + 1);
             t.st.count("alloc_bound_checked");
             if al.bytes > bound {
@@ -527,6 +537,11 @@ fn c18_encode(t: &mut Tctx, schema: &OwnedDataModelType, shape: &Shape, class: &
         Ok(Ok(b)) => b,
     };
     t.st.count("dyn_encode_ok");
+    if t.st.want_sample() && bytes.len() >= 2 && bytes.len() <= 24 && t.rng.chance(1, 16) {
+        let mut j = J::obj();
+        j.set("schema", J::s(format!("{}", schema))).set("json", J::s(json.to_string())).set("class", J::s(class)).set("to_stdvec_dyn", J::s(hex(&bytes)));
+        t.st.sample(j);
+    }
     // whatever encoding accepts, decoding succeeds and re-encodes to the same bytes
     let pattern = if has_option_of_nullable(shape) {
         "option-of-null-like"
@@ -590,7 +605,7 @@ fn c18_encode(t: &mut Tctx, schema: &OwnedDataModelType, shape: &Shape, class: &
 pub fn run_c18(cfg: &Cfg) -> Report {
     let mut rep = Report::new("C18");
     let s = parallel(cfg, 1, |t| {
-        let n = t.cfg.scale(20, 2_500, 100_000);
+        let n = t.cfg.scale(20, 2_500, 60_000);
         let o = SchemaOpts { max_depth: 5, max_fan: 5, unique_names: true, allow_schema_kind: true };
         for _ in 0..n {
             if t.cfg.expired() {
@@ -658,5 +673,46 @@ pub fn run_c18(cfg: &Cfg) -> Report {
     for k in crate::trees::KINDS30 {
         rep.floor(k, 1);
     }
+    rep
+}
+
+// ------------------------------------------------------------------ replay
+
+pub fn replay(cfg: &Cfg, prop: &str) -> Report {
+    let mut rep = Report::new(prop);
+    let p = cfg.replay.clone().unwrap();
+    let m = read_replay(&p).unwrap_or_default();
+    let prop_s = prop.to_string();
+    let s = parallel(&Cfg { threads: 1, ..cfg.clone() }, 9, |t| {
+        let shape = match m.get("shape").map(|s| Shape::parse(s)) {
+            Some(Ok(s)) => s,
+            other => {
+                t.st.inconclusive(format!("replay file has no parsable shape ({:?})", other.map(|r| r.err())));
+                return;
+            }
+        };
+        let schema = shape_to_owned(&shape);
+        let json: Option<Value> = m.get("json").and_then(|j| serde_json::from_str(j).ok());
+        if prop_s == "C17" {
+            let sb = pcv_core::json::unhex(m.get("static_bytes").map(|s| s.as_str()).unwrap_or("")).unwrap_or_default();
+            match (spec::decode(&shape, &sb), json) {
+                (Ok(d), Some(j)) => c17_case(t, &schema, &shape, &d.val, &sb, &j, "replay"),
+                _ => t.st.inconclusive("replay: static bytes do not decode under the reference decoder or JSON unparsable".into()),
+            }
+        } else {
+            match m.get("kind").map(|s| s.as_str()) {
+                Some("c18-decode") => {
+                    let b = pcv_core::json::unhex(m.get("bytes").map(|s| s.as_str()).unwrap_or("")).unwrap_or_default();
+                    c18_decode(t, &schema, &shape, shape.nodes(), "replay", &b);
+                }
+                _ => match json {
+                    Some(j) => c18_encode(t, &schema, &shape, "replay", &j),
+                    None => t.st.inconclusive("replay: JSON unparsable".into()),
+                },
+            }
+        }
+    });
+    rep.stats.merge(s);
+    rep.rule = "replay of one recorded case".into();
     rep
 }
